@@ -124,26 +124,36 @@ void harness(void)
 #endif
 
 #ifdef SYM_OUT_SIZE
-  /* the method's own contract is for ANY out_size: here it is symbolic and the buffer is
-     the last out_size bytes of the object (exact fit), so the length arithmetic that
-     do_crypt only ever exercises at 384 is checked at every size with short settings */
+  /* Methods whose result grows with the setting (sunmd5, scrypt, yescrypt) guard it with
+     a comparison that is linear in out_size and the setting length.  do_crypt only ever
+     passes 384, where the boundary needs 340+-character settings (no verdict in 25
+     minutes); the same comparison is exercised here at every out_size <= OSIZE_CAP with
+     short settings: the buffer starts a small object with arbitrary contents and any
+     byte at or beyond out_size must keep its value.  (Not applied to fixed-length
+     results: crypt_nt_rn's own guard is one short, which the API cannot reach.)  */
+#ifndef OSIZE_CAP
+#define OSIZE_CAP 64
+#endif
+  static char vf_small[OSIZE_CAP], vf_small0[OSIZE_CAP];
   size_t in_osize = nondet_size_t();
-  __CPROVER_assume(in_osize <= sizeof vf_output);
-  char *outp = vf_output + (sizeof vf_output - in_osize);
-  if (in_osize >= 3) { outp[0] = '*'; outp[1] = '0'; outp[2] = 0; }
+  __CPROVER_assume(in_osize >= 3 && in_osize <= OSIZE_CAP);
+  for (size_t i = 0; i < OSIZE_CAP; i++) vf_small[i] = nondet_char();
+  vf_small[0] = '*'; vf_small[1] = '0'; vf_small[2] = 0;
+  for (size_t i = 0; i < OSIZE_CAP; i++) vf_small0[i] = vf_small[i];
   errno = 0;
-  METHOD_FN(phrase, in_plen, setting, set_size, (uint8_t *)outp, in_osize, vf_scratch, sizeof vf_scratch);
-  if (in_osize >= 3 && outp[0] != '*') {
+  METHOD_FN(phrase, in_plen, setting, set_size, (uint8_t *)vf_small, in_osize, vf_scratch, sizeof vf_scratch);
+  for (size_t i = 0; i < OSIZE_CAP; i++)
+    if (i >= in_osize) VF_ASSERT(vf_small[i] == vf_small0[i], "C04: the method writes nothing at or beyond out_size");
+  if (vf_small[0] != '*') {
     _Bool term = 0;
-    for (size_t i = 0; i < sizeof vf_output; i++) if (i < in_osize && outp[i] == 0) term = 1;
-    VF_ASSERT(term, "C04: result NUL-terminated inside out_size for every out_size");
+    for (size_t i = 0; i < OSIZE_CAP; i++) if (i < in_osize && vf_small[i] == 0) term = 1;
+    VF_ASSERT(term, "C04: result NUL-terminated inside out_size");
     VF_WITNESS("success at symbolic out_size");
   } else {
-    if (in_osize >= 3) VF_ASSERT(errno != 0, "C05: failure at a small out_size sets errno");
+    VF_ASSERT(errno != 0, "C05: refusal for lack of space sets errno");
     VF_WITNESS("refused at symbolic out_size");
   }
-  return;
-#endif
+#else
   errno = 0;
   METHOD_FN(phrase, in_plen, setting, set_size, (uint8_t *)vf_output, sizeof vf_output,
             vf_scratch, sizeof vf_scratch);
@@ -197,4 +207,5 @@ void harness(void)
               __CPROVER_file_local_crypt_c_get_hashfn(setting), "C06: hash selects the same method as the setting");
     VF_WITNESS("method success");
   }
+#endif /* SYM_OUT_SIZE */
 }
